@@ -67,8 +67,10 @@ async fn autopilot(shared: Arc<Mutex<Shared>>, mode: PayMode) {
             let reply: Option<Value> = match method.as_str() {
                 "datastore" => Some(s.node.datastore_write(&s.pending[i].params.clone()).0),
                 "deldatastore" => Some(s.node.datastore_delete(&s.pending[i].params.clone()).0),
+                "listdatastore" if s.err_text.is_some() => Some(rpc_error(-1, s.err_text.as_deref().unwrap())),
                 "listdatastore" => Some(s.node.listdatastore(&s.pending[i].params)),
                 "listsendpays" => Some(s.node.listsendpays(&s.pending[i].params)),
+                "waitsendpay" if s.hold_waitsendpay => s.node.waitsendpay(&s.pending[i].params),
                 "waitsendpay" => Some(s.node.waitsendpay(&s.pending[i].params).unwrap_or_else(|| rpc_error(200, "timed out"))),
                 "pay" if s.hold_pays => None,
                 "pay" => {
@@ -130,6 +132,8 @@ impl Proc {
             local_id: local_pubkey().to_string(),
             getinfo_delay_ms: GETINFO_DELAY_MS.with(|d| d.get()),
             hold_pays: false,
+            hold_waitsendpay: false,
+            err_text: None,
         }));
         let mut tasks = vec![];
         tasks.push(tokio::spawn(serve(listener, shared.clone())));
@@ -281,6 +285,11 @@ impl Proc {
     /// getinfo requests that reached the simulated node (they are answered automatically and logged as HeightTold)
     pub fn getinfo_count(&self) -> usize {
         self.shared.lock().unwrap().log.iter().filter(|r| matches!(&r.ev, Ev::HeightTold { via, .. } if *via == "getinfo")).count()
+    }
+
+    /// notification topics the plugin subscribed to in its getmanifest reply
+    pub fn subscriptions(&self) -> Vec<String> {
+        self.reply(&json!("hs-1")).and_then(|r| r["result"]["subscriptions"].as_array().cloned()).unwrap_or_default().iter().filter_map(|x| x.as_str().map(String::from)).collect()
     }
 
     pub fn panicked(&self) -> Option<String> {
@@ -564,6 +573,9 @@ pub fn c06_e2e(s: &mut Session) {
         s.regress::<Batch, _>("e2e-batch", |b| run_batch(b, "C06"));
         let n = s.tier.pick(2, 20);
         s.search("e2e-binary-batches", "e2e-batch", n, || (batch_scenario(false), prop_oneof![2 => Just(0u16), 1 => Just(200u16)]).prop_map(|(mut b, burst)| { b.burst = burst; b }), |b| run_batch(b, "C06"));
+        s.regress::<ErrText, _>("e2e-err-text", run_err_text);
+        let n = s.tier.pick(1, 6);
+        s.search("e2e-long-non-ascii-error-text", "e2e-err-text", n, || (0u8..4, 0u8..3, prop_oneof![1 => 10u16..200, 3 => 250u16..1200], any::<bool>()).prop_map(|(prefix, width, chars, trace_log)| ErrText { prefix, width, chars, trace_log }), run_err_text);
     });
 }
 
@@ -878,6 +890,200 @@ pub fn c14_e2e(s: &mut Session) {
         s.regress::<IsolationCase, _>("e2e-isolation", run_isolation);
         let cases = vec![IsolationCase { others: 1, trace_log: false }, IsolationCase { others: 5, trace_log: true }, IsolationCase { others: 40, trace_log: false }];
         s.enumerate("e2e-other-hash-while-pay-in-flight", "e2e-isolation", cases, run_isolation);
+    });
+}
+
+// ------------------------------------------------------------------ C06: long non-ASCII error texts from the node
+
+#[derive(Clone, Debug, Serialize, Deserialize)]
+pub struct ErrText {
+    /// ASCII characters in front (shifts the byte offsets of what follows)
+    pub prefix: u8,
+    /// 0 = 2-byte, 1 = 3-byte, 2 = 4-byte characters
+    pub width: u8,
+    pub chars: u16,
+    pub trace_log: bool,
+}
+
+/// lightningd answers the state read with an error whose message is long and not ASCII (a localized / quoted text).
+/// The plugin logs such errors; every HTLC must still be answered and nothing may panic.
+fn run_err_text(c: &ErrText) -> CaseReport {
+    let mut rep = CaseReport::default();
+    if bin_missing() {
+        rep.inconclusive = true;
+        return rep;
+    }
+    let cfg = Cfg { mpp_timeout_s: 1, ..Cfg::default() };
+    let need = needed_total(&cfg, 1_000_000);
+    let payments: Vec<PaymentSpec> = (0..3).map(|i| PaymentSpec { preimage: 0x40 + i, invoice_amount: Some(1_000_000), tlv_amount: 1_000_000, hints: Hints::None, explicit_payee: false, recipient_ok: true, drain_parts: 1 }).collect();
+    let htlcs: Vec<HtlcSpec> = (0..3).map(|i| HtlcSpec { pay: i, hash_of: None, amount_msat: need, total_msat: Some(need), forward_msat: Some(need), cltv_expiry: 1000 + 1200, cltv_rel: 1100, forward: false, meta: Meta::Normal, extra: vec![], raw_payload: None }).collect();
+    let scn = crate::props::c13::blank(payments, htlcs, 1);
+    let ch = ["\u{e9}", "\u{20ac}", "\u{1f600}"][c.width as usize % 3];
+    let text = format!("{}{}", "x".repeat(c.prefix as usize), ch.repeat(c.chars as usize));
+    let r = rt();
+    let res: Result<(), String> = r.block_on(async {
+        let mut p = match Proc::start(default_options(), if c.trace_log { Some("trace") } else { None }, PayMode::FailFast, 1000, &[]).await? {
+            Started::Running(p) => p,
+            Started::Refused { stderr, .. } => return Err(format!("refused: {stderr}")),
+        };
+        p.shared.lock().unwrap().err_text = Some(text.clone());
+        for i in 0..3 {
+            p.send_htlc(json!(format!("e{i}")), &scn.render(i)).await;
+            tokio::time::sleep(Duration::from_millis(30)).await;
+        }
+        let mut missing = 0;
+        for i in 0..3 {
+            match p.wait_reply(&json!(format!("e{i}")), 8000).await {
+                Some(rp) if rp.get("result").is_some() => {}
+                Some(rp) => rep.violations.push(Violation::new("C06", "error_reply_to_hook", format!("htlc_accepted answered with {rp}"))),
+                None => missing += 1,
+            }
+        }
+        if let Some(m) = p.panicked() {
+            rep.violations.push(Violation::new("C06", "panic_in_binary", format!("after the node answered listdatastore with an error message of {} bytes ({} ASCII + {} x {}-byte characters); stderr of the plugin: {m}", text.len(), c.prefix, c.chars, ch.len())).with_sig(json!({"kind":"panic_in_binary"})));
+        } else if missing > 0 {
+            if matches!(p.child.try_wait(), Ok(Some(_))) {
+                rep.violations.push(Violation::new("C06", "plugin_exited_with_unanswered_requests", format!("{missing} of 3 htlc_accepted calls unanswered, process gone")));
+            } else {
+                rep.inconclusive = true;
+            }
+        }
+        p.stop().await;
+        Ok(())
+    });
+    if let Err(e) = res {
+        rep.inconclusive = true;
+        rep.classes.push(format!("infrastructure: {}", e.chars().take(80).collect::<String>()));
+    }
+    rep.nontrivial = !rep.inconclusive;
+    rep.fingerprint = fp_of(&(c.prefix, c.width, c.chars, c.trace_log));
+    rep.classes.push(format!("e2e_non_ascii_error_text_{}_bytes", if text.len() > 1024 { "over_1k" } else { "up_to_1k" }));
+    rep.sample = Some(serde_json::to_value(c).unwrap());
+    rep
+}
+
+pub fn replay_err_text(c: Value) -> Option<CaseReport> {
+    Some(run_err_text(&serde_json::from_value(c).ok()?))
+}
+
+// ------------------------------------------------------------------ C02: notifications the plugin subscribed to, while a payment is in flight
+
+#[derive(Clone, Debug, Serialize, Deserialize)]
+pub struct InFlightNotify {
+    /// HTLCs replayed for the in-flight payment (each carries 1/3 of what is needed: never "ready")
+    pub replayed: u8,
+    pub pending_parts: u8,
+}
+
+/// An earlier run left a Pending record and a pending outgoing part. HTLCs are replayed; lightningd then sends every
+/// notification topic the plugin subscribed to (besides block_added), e.g. `shutdown`. As long as the part is pending
+/// no HTLC may be failed; when it completes they are settled.
+fn run_inflight_notify(c: &InFlightNotify) -> CaseReport {
+    let mut rep = CaseReport::default();
+    if bin_missing() {
+        rep.inconclusive = true;
+        return rep;
+    }
+    let cfg = Cfg { mpp_timeout_s: 1, ..Cfg::default() };
+    let pay = PaymentSpec { preimage: 0x37, invoice_amount: Some(1_000_000), tlv_amount: 1_000_000, hints: Hints::None, explicit_payee: false, recipient_ok: true, drain_parts: 1 };
+    let need = needed_total(&cfg, 1_000_000);
+    let n = c.replayed.max(1) as usize;
+    let htlcs: Vec<HtlcSpec> = (0..n).map(|_| HtlcSpec { pay: 0, hash_of: None, amount_msat: need / 3, total_msat: Some(need), forward_msat: Some(need / 3), cltv_expiry: 1000 + 1200, cltv_rel: 1100, forward: false, meta: Meta::Normal, extra: vec![], raw_payload: None }).collect();
+    let scn = crate::props::c13::blank(vec![pay.clone()], htlcs, 1);
+    let r = rt();
+    let res: Result<(), String> = r.block_on(async {
+        let mut p = match Proc::start(default_options(), None, PayMode::Complete, 1000, &[pay.preimage_bytes()]).await? {
+            Started::Running(p) => p,
+            Started::Refused { stderr, .. } => return Err(format!("refused: {stderr}")),
+        };
+        {
+            let mut g = p.shared.lock().unwrap();
+            let s = &mut *g;
+            s.hold_waitsendpay = true;
+            let h = hex::encode(pay.hash());
+            let now = std::time::SystemTime::now().duration_since(std::time::UNIX_EPOCH).map(|d| d.as_secs()).unwrap_or(0);
+            s.node.datastore.insert(vec!["trampoline".into(), "payments".into(), h.clone(), "state".into()], (json!({"Pending": {"attempt_id": "1", "attempt_time_seconds": now}}).to_string(), 0));
+            s.node.datastore.insert(vec!["trampoline".into(), "payments".into(), h, "attempts".into(), "1".into()], (json!({"amount_msat": 1_000_000u64, "bolt11": build_invoice(&pay, InvKind::Normal), "completed": false, "success": false}).to_string(), 0));
+            let g = s.node.new_group();
+            for _ in 0..c.pending_parts.max(1) {
+                s.node.add_part(pay.hash(), g, None);
+            }
+        }
+        for i in 0..n {
+            p.send_htlc(json!(format!("r{i}")), &scn.render(i)).await;
+        }
+        tokio::time::sleep(Duration::from_millis(400)).await;
+        let topics: Vec<String> = p.subscriptions().into_iter().filter(|t| t != "block_added").collect();
+        for t in &topics {
+            let params = if t == "shutdown" { json!({}) } else { json!({ t.as_str(): {} }) };
+            p.send(&json!({"jsonrpc":"2.0","method": t, "params": params})).await;
+        }
+        rep.classes.push(format!("subscribed_topics_sent:{}", topics.len()));
+        // the part is pending all the while
+        let t0 = std::time::Instant::now();
+        while t0.elapsed() < Duration::from_millis(2500) {
+            for i in 0..n {
+                if let Some(rp) = p.reply(&json!(format!("r{i}"))) {
+                    if rp["result"]["result"] == "fail" {
+                        rep.violations.push(Violation::new(
+                            "C02",
+                            "failed_while_part_pending_through_binary",
+                            format!("replayed HTLC {i} of a payment with a Pending record and {} pending outgoing part(s) was failed ({}) {:?} after delivery (notifications sent meanwhile: {:?})", c.pending_parts.max(1), rp["result"]["failure_message"], t0.elapsed(), topics),
+                        ));
+                    }
+                }
+            }
+            if !rep.violations.is_empty() {
+                break;
+            }
+            tokio::time::sleep(Duration::from_millis(50)).await;
+        }
+        if rep.violations.is_empty() && matches!(p.child.try_wait(), Ok(None)) {
+            // the interrupted attempt completes: the HTLCs are settled with its preimage
+            {
+                let mut g = p.shared.lock().unwrap();
+                for part in g.node.parts.iter_mut() {
+                    part.status = PartStatus::Complete;
+                }
+            }
+            for i in 0..n {
+                match p.wait_reply(&json!(format!("r{i}")), 8000).await {
+                    Some(rp) if rp["result"]["result"] == "resolve" => {}
+                    Some(rp) => rep.violations.push(Violation::new("C02", "not_settled_after_interrupted_attempt_completed", format!("replayed HTLC {i} answered {}", rp["result"]))),
+                    None => {
+                        if let Some(m) = p.panicked() {
+                            rep.violations.push(Violation::new("C06", "panic_in_binary", m));
+                        } else {
+                            rep.inconclusive = true;
+                        }
+                    }
+                }
+            }
+        }
+        p.stop().await;
+        Ok(())
+    });
+    if let Err(e) = res {
+        rep.inconclusive = true;
+        rep.classes.push(format!("infrastructure: {}", e.chars().take(80).collect::<String>()));
+    }
+    rep.nontrivial = !rep.inconclusive;
+    rep.fingerprint = fp_of(&(c.replayed, c.pending_parts));
+    rep.classes.push("e2e_replay_onto_in_flight_payment".into());
+    rep.sample = Some(serde_json::to_value(c).unwrap());
+    rep
+}
+
+pub fn replay_inflight_notify(c: Value) -> Option<CaseReport> {
+    Some(run_inflight_notify(&serde_json::from_value(c).ok()?))
+}
+
+pub fn c02_e2e_quick(s: &mut Session) {
+    e2e_workers_note(s);
+    booked(s, |s| {
+        s.regress::<InFlightNotify, _>("e2e-inflight-notify", run_inflight_notify);
+        let cases = vec![InFlightNotify { replayed: 1, pending_parts: 1 }, InFlightNotify { replayed: 3, pending_parts: 2 }];
+        s.enumerate("e2e-replay-onto-in-flight-payment", "e2e-inflight-notify", cases, run_inflight_notify);
     });
 }
 
